@@ -431,6 +431,10 @@ func Run(c Case) *Result {
 		nw2.WriteBackoffMin, nw2.WriteBackoffMax = w.WriteBackoffMin, w.WriteBackoffMax
 		w = nw2
 	}
+	if c.Balancer == "default" {
+		// no Balancer configured: the Writer's own default (round-robin) applies; the choices are not recorded then
+		w.Balancer = nil
+	}
 	if slowLogger != nil {
 		w.Logger = slowLogger
 	}
